@@ -170,8 +170,11 @@ Definition wflip_side_ok (a A V : N) : bool :=
 (* ---------- auxiliary ops ---------- *)
 Local Open Scope Z_scope.
 
+(* a statement occupies the bits [pl_addr, pl_next); a `reserve 0` (pl_next <= pl_addr) occupies nothing and so cannot
+   be overlapped: without this test the empty interval of a zero-size reserve placed (in another segment) at the middle
+   word of an auxiliary op counted as an overlap although no bit is shared *)
 Definition occupies (p : placed) : bool :=
-  match pl_stmt p with SFlipJump _ _ _ | SWordFlip _ _ _ _ | SReserve _ _ => true | _ => false end.
+  match pl_stmt p with SFlipJump _ _ _ | SWordFlip _ _ _ _ | SReserve _ _ => pl_addr p <? pl_next p | _ => false end.
 Definition is_pad (p : placed) : bool := match pl_stmt p with SPad _ _ => true | _ => false end.
 Definition is_segment (p : placed) : bool := match pl_stmt p with SSegment _ _ => true | _ => false end.
 
@@ -208,7 +211,8 @@ Definition stmt_ok (L : list placed) (lbls : labels) (p : placed) : Prop :=
   | SWordFlip ea ev er _ =>
     exists A V R, eval_expr (env_at lbls a') ea = Some A /\ eval_expr (env_at lbls a') ev = Some V
                   /\ eval_expr (env_at lbls a') er = Some R
-                  /\ 0 <= a /\ a mod wz = 0 /\ 0 <= A /\ 0 <= V < 2 ^ wz /\ 0 <= R
+                  (* V = 0 flips nothing of the word at A (the null flip): A is then not looked at *)
+                  /\ 0 <= a /\ a mod wz = 0 /\ (V = 0 \/ 0 <= A) /\ 0 <= V < 2 ^ wz /\ 0 <= R
                   /\ wflip_ok L (Z.to_N a) (Z.to_N A) (Z.to_N V) (Z.to_N R)
   | SPad _ _ => True
   | SSegment _ _ => a' mod wz = 0      (* whatever is then placed there has its own clause *)
